@@ -35,7 +35,8 @@ func completeness(r *core.Run, rule, table string, seen map[string]bool, want []
 func c16(r *core.Run) {
 	r.Explanation = "Decided clauses: (R1) every row of interpreter.ConverterDeclarations names one numeric type only: its Name constant, Convert function, Min/Max constructors and bounds all belong to the same type, " +
 		"and a row exists for every number type; (R2) the ConvertT functions of sibling widths agree modulo the family parameters (or fall into the reviewed classes) and use only their own bounds; " +
-		"(R3) ConvertWordN raises no Overflow/Underflow kind for integer sources paths (reduction instead) while ConvertIntN/ConvertUIntN raise {Overflow, Underflow}."
+		"(R3) ConvertWordN raises no Overflow/Underflow kind for integer sources paths (reduction instead) while ConvertIntN/ConvertUIntN raise {Overflow, Underflow}; " +
+		"(R4) inside the Convert functions of non-Word targets every same-width Go conversion across signedness (uint64 → int64, fix.UFix128 → fix.Fix128, …) is dominated by a range test on the source value with a failing edge."
 	r.NotDecided = "value preservation per (source, target) pair; fixed-point scaling and rounding arithmetic."
 	w := r.W
 	p := w.Pkg("interpreter")
@@ -81,6 +82,7 @@ func c16(r *core.Run) {
 		r.Check(got == "", "R3.signature", key, fn.Pos(), "raises no overflow/underflow kind (reduces modulo 2^n)", "raises {"+got+"}: conversion to a Word type must reduce, not fail")
 	}
 	r.Floor("R3.signature", 18)
+	c16Reinterpret(r)
 }
 
 func c17(r *core.Run) {
@@ -372,4 +374,209 @@ func c17NilExact(r *core.Run) {
 			"a condition other than the byte-array error, `byteLength != 0` or `len(bytes) > byteLength` decides whether nil is returned: fromBigEndianBytes must return nil exactly for inputs longer than the type's size")
 	}
 	r.Floor(rule, 3)
+}
+
+// signClassOf classifies a Go type by the signedness of the Cadence number (or native integer) it represents.
+func signClassOf(t types.Type) (class string, bits int) {
+	name := ""
+	if nt, ok := t.(*types.Named); ok {
+		name = strings.TrimSuffix(nt.Obj().Name(), "Value")
+	} else if b, ok := t.(*types.Basic); ok {
+		name = b.Name()
+	}
+	width := func(s string, def int) int {
+		i := len(s)
+		for i > 0 && s[i-1] >= '0' && s[i-1] <= '9' {
+			i--
+		}
+		if i == len(s) {
+			return def
+		}
+		n, _ := strconv.Atoi(s[i:])
+		return n
+	}
+	switch {
+	case strings.HasPrefix(name, "UFix"), strings.HasPrefix(name, "UInt"), strings.HasPrefix(name, "Word"), strings.HasPrefix(name, "uint"):
+		return "unsigned", width(name, 64)
+	case strings.HasPrefix(name, "Fix"), strings.HasPrefix(name, "Int"), strings.HasPrefix(name, "int"):
+		return "signed", width(name, 64)
+	}
+	return "", 0
+}
+
+// c16Reinterpret: R4 — a conversion function never reinterprets the bits of a value across signedness without a range
+// test: every Go conversion inside interpreter.Convert{Int,UInt,Fix,UFix}* whose source and target types have the same
+// width but different signedness (uint64 → int64, fix.UFix128 → fix.Fix128, …) is dominated by a branch on the source
+// value one of whose edges panics (the overflow / underflow test). Word targets are exempt: they reduce modulo 2^n.
+func c16Reinterpret(r *core.Run) {
+	const rule = "R4.reinterpret"
+	w := r.W
+	n := 0
+	rootOf := func(v ssa.Value) ssa.Value {
+		for {
+			switch x := v.(type) {
+			case *ssa.Convert:
+				v = x.X
+			case *ssa.ChangeType:
+				v = x.X
+			case *ssa.MakeInterface:
+				v = x.X
+			default:
+				return v
+			}
+		}
+	}
+	for _, top := range w.SrcFuncsIn("interpreter") {
+		if top.Parent() != nil || top.Signature.Recv() != nil || !strings.HasPrefix(top.Name(), "Convert") || strings.HasPrefix(top.Name(), "ConvertWord") {
+			continue
+		}
+		if c, _ := signClassOf(namedResult(top)); c == "" {
+			continue
+		}
+		var fns []*ssa.Function
+		var collect func(f *ssa.Function)
+		collect = func(f *ssa.Function) {
+			fns = append(fns, f)
+			for _, a := range f.AnonFuncs {
+				collect(a)
+			}
+		}
+		collect(top)
+		for _, f := range fns {
+			idx := 0
+			for _, b := range f.Blocks {
+				for _, in := range b.Instrs {
+					var src ssa.Value
+					var dst types.Type
+					switch x := in.(type) {
+					case *ssa.Convert:
+						src, dst = x.X, x.Type()
+					case *ssa.ChangeType:
+						src, dst = x.X, x.Type()
+					default:
+						continue
+					}
+					sc, sb := signClassOf(src.Type())
+					dc, db := signClassOf(dst)
+					if sc == "" || dc == "" || sc == dc || sb != db {
+						continue
+					}
+					if _, isConst := src.(*ssa.Const); isConst {
+						continue
+					}
+					// conversions that only feed the guard itself (e.g. uint64(result) > Max) are not results: a conversion
+					// is a reinterpretation if its class differs from the class of the root value it derives from
+					root := rootOf(src)
+					if rc, rb := signClassOf(root.Type()); rc == dc && rb == db {
+						continue // converted forth and back: same class as the original value
+					}
+					idx++
+					n++
+					key := core.SSAKey(f) + ": " + types.TypeString(src.Type(), shortQual) + " -> " + types.TypeString(dst, shortQual) + " #" + itoa(idx)
+					guarded := guardedBy(f, b, func(v ssa.Value) bool { return v == root || rootOf(v) == root })
+					if !guarded && f.Parent() != nil {
+						// the value is captured: the range test may sit in the enclosing function, before the closure is built
+						var fv *ssa.FreeVar
+						seen := map[ssa.Value]bool{}
+						var find func(v ssa.Value, d int)
+						find = func(v ssa.Value, d int) {
+							if v == nil || seen[v] || d > 6 || fv != nil {
+								return
+							}
+							seen[v] = true
+							if x, ok := v.(*ssa.FreeVar); ok {
+								fv = x
+								return
+							}
+							if vi, ok := v.(ssa.Instruction); ok {
+								for _, op := range vi.Operands(nil) {
+									if op != nil && *op != nil {
+										find(*op, d+1)
+									}
+								}
+							}
+						}
+						find(src, 0)
+						if fv != nil {
+							fvi := -1
+							for i, x := range f.FreeVars {
+								if x == fv {
+									fvi = i
+								}
+							}
+							core.Instrs(f.Parent(), false, func(pin ssa.Instruction) {
+								mc, ok := pin.(*ssa.MakeClosure)
+								if !ok || mc.Fn != ssa.Value(f) || fvi < 0 || fvi >= len(mc.Bindings) {
+									return
+								}
+								binding := mc.Bindings[fvi]
+								if guardedBy(f.Parent(), mc.Block(), func(v ssa.Value) bool { return v == binding }) {
+									guarded = true
+								}
+							})
+						}
+					}
+					r.Check(guarded, rule, key, in.Pos(), "dominated by a range test on the source value with a failing edge",
+						"the bits of a value are reinterpreted across signedness without a dominating range test: values outside the target range become valid-looking values of the other sign instead of an overflow/underflow error")
+				}
+			}
+		}
+	}
+	r.Floor(rule, 6)
+}
+
+func shortQual(p *types.Package) string { return p.Name() }
+
+func namedResult(f *ssa.Function) types.Type {
+	res := f.Signature.Results()
+	if res.Len() == 0 {
+		return types.Typ[types.Invalid]
+	}
+	return res.At(0).Type()
+}
+
+// guardedBy: some block dominating b ends in a branch whose condition derives (through operands, depth 6) from a value
+// accepted by isSrc and one of whose edges cannot return (panics).
+func guardedBy(f *ssa.Function, b *ssa.BasicBlock, isSrc func(ssa.Value) bool) bool {
+	for _, gb := range f.Blocks {
+		if len(gb.Instrs) == 0 {
+			continue
+		}
+		iff, ok := gb.Instrs[len(gb.Instrs)-1].(*ssa.If)
+		if !ok || !gb.Dominates(b) {
+			continue
+		}
+		panics := false
+		for _, s := range gb.Succs {
+			if core.Terminates(s) {
+				panics = true
+			}
+		}
+		if !panics {
+			continue
+		}
+		seen := map[ssa.Value]bool{}
+		var dep func(v ssa.Value, d int) bool
+		dep = func(v ssa.Value, d int) bool {
+			if v == nil || seen[v] || d > 6 {
+				return false
+			}
+			seen[v] = true
+			if isSrc(v) {
+				return true
+			}
+			if vi, ok := v.(ssa.Instruction); ok {
+				for _, op := range vi.Operands(nil) {
+					if op != nil && *op != nil && dep(*op, d+1) {
+						return true
+					}
+				}
+			}
+			return false
+		}
+		if dep(iff.Cond, 0) {
+			return true
+		}
+	}
+	return false
 }
